@@ -357,6 +357,8 @@ class Judge(object):
                 self.classes.add(kind + ":merge-one-empty")
             else:
                 self.classes.add(kind + ":merge-both-nonempty")
+        if (na == 0 and A.get("was_reset")) or (nb == 0 and B.get("was_reset")):
+            self.classes.add(kind + ":merge-with-emptied-by-reset" + ("" if na or nb else "-both-empty"))
         if x == y:
             self.classes.add(kind + ":merge-self")
         self.classes.add(kind + ":merge-into-" + ("first" if t == x else "second" if t == y else "third"))
@@ -369,7 +371,8 @@ class Judge(object):
         self._merge(self.sums, idx, tok, a, "sum")
 
     def op_sum_reset(self, idx, tok, a):
-        self.sums[int(tok[1])] = dict(xs=[], nops=0, origin="adds")
+        self.classes.add("sum:reset" + ("-after-data" if self.sums[int(tok[1])]["xs"] else "-of-empty"))
+        self.sums[int(tok[1])] = dict(xs=[], nops=0, origin="adds", was_reset=bool(self.sums[int(tok[1])]["xs"]))
 
     def op_sum_print(self, idx, tok, a):
         pass
@@ -445,7 +448,8 @@ class Judge(object):
         self._merge(self.wss, idx, tok, a, "ws")
 
     def op_ws_reset(self, idx, tok, a):
-        self.wss[int(tok[1])] = dict(xs=[], ws=[], nops=0, origin="adds")
+        self.classes.add("ws:reset" + ("-after-data" if self.wss[int(tok[1])]["xs"] else "-of-empty"))
+        self.wss[int(tok[1])] = dict(xs=[], ws=[], nops=0, origin="adds", was_reset=bool(self.wss[int(tok[1])]["xs"]))
 
     def op_ws_get(self, idx, tok, a):
         d = self.wss[int(tok[1])]
